@@ -2115,14 +2115,32 @@ pub fn apply(disk: &mut Disk, s: &Surgery) -> Result<(), String> {
             disk.tables.remove(&tag_from_str("kern"));
             Ok(())
         }
-        Surgery::PostFormat { v25, variant } => {
+        Surgery::PostFormat { v25, variant, v20 } => {
             let n = usize::from(num_glyphs(disk)?);
             let post = disk.tables.get(&tag_from_str("post")).ok_or("surgery: no post")?.clone();
             if post.len() < 32 {
                 return Err("surgery: short post".into());
             }
             let mut t = post[..32].to_vec();
-            if *v25 {
+            if *v20 {
+                t[0..4].copy_from_slice(&0x0002_0000u32.to_be_bytes());
+                t.extend_from_slice(&(n as u16).to_be_bytes());
+                // every third glyph (by variant) has a standard name, the others custom names in
+                // order of first use
+                let mut names: Vec<String> = Vec::new();
+                for g in 0..n {
+                    if (g + *variant as usize) % 3 == 0 || names.len() >= 32000 {
+                        t.extend_from_slice(&(((g * 7 + *variant as usize) % 258) as u16).to_be_bytes());
+                    } else {
+                        t.extend_from_slice(&((258 + names.len()) as u16).to_be_bytes());
+                        names.push(format!("g{}", g));
+                    }
+                }
+                for name in names {
+                    t.push(name.len() as u8);
+                    t.extend_from_slice(name.as_bytes());
+                }
+            } else if *v25 {
                 if n > 385 {
                     return Err("surgery: too many glyphs for post 2.5".into());
                 }
